@@ -664,17 +664,77 @@ func rtBigInt(fr *frame, a []value) value {
 func bigNewInt(fr *frame, a []value) value { return bigNew(bigFromInt(a[0], true)) }
 
 func bigSetString(fr *frame, a []value) value {
-	s, ok := a[1].(string)
-	if !ok {
-		panic(pathUnsupported{"big.Int.SetString on a symbolic string (use the digit-wise harness model)"})
-	}
 	base := int(asInt64(a[2]))
-	n, ok := new(big.Int).SetString(s, base)
-	if !ok {
-		var nilp *value
+	if s, ok := a[1].(string); ok {
+		n, ok := new(big.Int).SetString(s, base)
+		if !ok {
+			var nilp *value
+			return tuple{nilp, false}
+		}
+		bigPut(a[0], bigv{c: n})
+		return tuple{a[0], true}
+	}
+	// symbolic text: digit-wise model for bases 2, 8, 10, 16 (no prefixes, no underscores: base != 0)
+	if base != 2 && base != 8 && base != 10 && base != 16 {
+		panic(pathUnsupported{"big.Int.SetString on symbolic text with base 0 or an unusual base"})
+	}
+	var nilp *value
+	b := strBytes(a[1])
+	neg := false
+	if len(b) > 0 {
+		if condBool(boolOrSym(byteEq(b[0], uint8('-')))) {
+			neg = true
+			b = b[1:]
+		} else if condBool(boolOrSym(byteEq(b[0], uint8('+')))) {
+			b = b[1:]
+		}
+	}
+	if len(b) == 0 {
 		return tuple{nilp, false}
 	}
-	bigPut(a[0], bigv{c: n})
+	acc := "0"
+	for _, c := range b {
+		var dv string
+		switch cv := c.(type) {
+		case uint8:
+			d := -1
+			switch {
+			case cv >= '0' && cv <= '9':
+				d = int(cv - '0')
+			case cv >= 'a' && cv <= 'z':
+				d = int(cv-'a') + 10
+			case cv >= 'A' && cv <= 'Z':
+				d = int(cv-'A') + 10
+			}
+			if d < 0 || d >= base {
+				return tuple{nilp, false}
+			}
+			dv = strconv.Itoa(d)
+		case symv:
+			inr := func(lo, hi uint8) symv {
+				return symAnd(mk(0, "bvuge", cv, symv{8, bvLit(uint64(lo), 8)}), mk(0, "bvule", cv, symv{8, bvLit(uint64(hi), 8)}))
+			}
+			hiDigit := uint8('0' + base - 1)
+			if base > 10 {
+				hiDigit = '9'
+			}
+			switch {
+			case E.Decide(inr('0', hiDigit)):
+				dv = fmt.Sprintf("(bv2nat (bvsub %s #x30))", cv.t)
+			case base == 16 && E.Decide(inr('a', 'f')):
+				dv = fmt.Sprintf("(bv2nat (bvsub %s #x57))", cv.t)
+			case base == 16 && E.Decide(inr('A', 'F')):
+				dv = fmt.Sprintf("(bv2nat (bvsub %s #x37))", cv.t)
+			default:
+				return tuple{nilp, false}
+			}
+		}
+		acc = E.name(symv{-1, fmt.Sprintf("(+ (* %s %d) %s)", acc, base, dv)}).t
+	}
+	if neg {
+		acc = "(- " + acc + ")"
+	}
+	bigPut(a[0], bigv{t: acc})
 	return tuple{a[0], true}
 }
 
